@@ -187,3 +187,20 @@ register(Contract(
         "rule_id is " + RULE, "len(g_printed) == old(len(g_printed))", "self.number_of_scan_failures == old(self.number_of_scan_failures)",
     ])},
 ))
+
+# C07: a reported failure is recorded exactly once with exactly the reported position and rule; in fix mode nothing is recorded
+# (a rule that supports fixing must not report there at all)
+REP = "self.__reported"
+register(Contract(
+    key=PSC + "add_triggered_rule", properties=["C07", "C05"],
+    ensures=[
+        f"implies(self.in_fix_mode, len({REP}) == old(len({REP})))",
+        f"implies(not self.in_fix_mode, len({REP}) == old(len({REP})) + 1 and is_fresh({REP}[len({REP}) - 1]))",
+        f"implies(not self.in_fix_mode, {REP}[len({REP}) - 1].scan_file is scan_file and {REP}[len({REP}) - 1].line_number == line_number and "
+        f"{REP}[len({REP}) - 1].column_number == column_number and {REP}[len({REP}) - 1].rule_id is rule_id and "
+        f"{REP}[len({REP}) - 1].extra_error_information is extra_error_information)",
+        f"forall(lambda k: {REP}[k] is old({REP}[k]), 0, old(len({REP})))",
+    ],
+    raises=[Raises("BadPluginError", when="self.in_fix_mode and does_support_fix")],
+    modifies=[f"{REP}.$list"],
+))
